@@ -1683,6 +1683,23 @@ def big_kruskal_balanced(n, seed):
                    lambda r: None if (r.status.name == "OPTIMAL" and comps == 1 and r.objective == tot and len(r.solution) == n - 1) else f"{r.status.name} weight {r.objective} expected OPTIMAL {tot}")
 
 
+def big_kruskal_late_bridge(m, seed):
+    """50 nodes: a light spanning path on 0..48, then m rejected edges inside that component, and the ONLY edge to node 49 is the heaviest,
+    so the sorted-edge loop must run m + 49 iterations before the tree is complete (weight 48 + 7 by construction)"""
+    import random as _r
+
+    rr = _r.Random(seed)
+    es = [(i, i + 1, 1) for i in range(48)]
+    es += [(rr.randrange(49), rr.randrange(49), rr.choice([2, 3, 3.5])) for _ in range(m)]
+    es.append((rr.randrange(49), 49, 7))
+    rr.shuffle(es)
+    p = _expect(f"kruskal on late_bridge(m={m}, seed={seed}; |E|={len(es)})", _trio("kruskal", 50, es),
+                lambda r: None if (r.status.name == "OPTIMAL" and r.objective == 55 and len(r.solution) == 49) else f"{r.status.name} weight {r.objective}, expected OPTIMAL 55")
+    p += _expect(f"kruskal(allow_forest=True) on late_bridge(m={m}, seed={seed})", _trio("kruskal", 50, es, allow_forest=True),
+                 lambda r: None if (r.status.name == "OPTIMAL" and r.objective == 55) else f"{r.status.name} weight {r.objective}, expected OPTIMAL 55")
+    return p
+
+
 def big_fw_line(n):
     es = [(i, i + 1, 1) for i in range(n - 1)]
     want = [[abs(i - j) for j in range(n)] for i in range(n)]
@@ -1778,7 +1795,7 @@ def scc_deep(ctx, n, shape):
     ctx.violation(what, {"scc_deep": [n, shape], "observed": res})
 
 
-BIG = {"bf_reversed": big_bf_reversed, "star": big_star, "dense_pendant": big_dense_pendant, "ring": big_ring, "kruskal_balanced": big_kruskal_balanced, "fw_line": big_fw_line, "parallel": big_parallel}
+BIG = {"kruskal_late_bridge": big_kruskal_late_bridge, "bf_reversed": big_bf_reversed, "star": big_star, "dense_pendant": big_dense_pendant, "ring": big_ring, "kruskal_balanced": big_kruskal_balanced, "fw_line": big_fw_line, "parallel": big_parallel}
 
 
 def big_plan(rng, thorough=False):
@@ -1801,6 +1818,8 @@ def big_plan(rng, thorough=False):
     plan.append(("fw_line", [104 if not thorough else 162]))          # n^3 > 2^20 (2^22) inner steps of the k-i-j loop
     plan.append(("parallel", [rng.choice([2049, 4099])]))
     plan.append(("parallel", [rng.choice([10001, 66000])]))          # > 10^4 stale heap entries / kernel edge-loop steps
+    plan.append(("kruskal_late_bridge", [rng.choice([4100, 10001]), rng.randrange(1000)]))
+    plan.append(("kruskal_late_bridge", [100001 if not thorough else 2 ** 20 + 2, rng.randrange(1000)]))
     plan.append(("bf_reversed", [rng.choice([129, 1025, 2049]), True]))
     plan.append(("bf_reversed", [4099 + rng.randrange(3), thorough]))  # > 2^12 rounds, 1.7 * 10^7 inner steps
     for which in ("bfs_edges", "dfs_edges", "dijkstra_edges", "topological_sort_edges"):
@@ -1837,6 +1856,8 @@ def work_counts(plan):
         elif name == "dense_pendant":
             m = a[0] * (a[0] - 1) // 2
             up({"bfs_edges": "bfs.arc_scans", "dfs_edges": "dfs.pops", "dijkstra_edges": "dijkstra.heap_entries"}[a[2]], m if (a[2] != "dijkstra_edges" or (len(a) > 3 and a[3] == "quadratic")) else a[0])
+        elif name == "kruskal_late_bridge":
+            up("kruskal.loop_iterations", a[0] + 49)
         elif name == "kruskal_balanced":
             up("kruskal.unions", a[0] - 1)
     return w
